@@ -126,6 +126,20 @@ Definition lu_point (inverse : bool) (e : f32) (o : option f32) : bool :=
         && implb (fnegative e) (if inverse then fle v (f_of_Z 0) else fle (f_of_Z 0) v)
       else true
   end.
+(* "saturate at the signed 16-bit limits": once the proportional part reaches the room the offset leaves, the value (before the
+   sign flip of a non-inverted profile) IS the limit - -32768 for negative errors, 32767 for positive ones - up to the
+   rounding of the two additions (2^-8) *)
+Definition f2m8 : f32 := fconst false 8388608 (-31) eq_refl.          (* 2^-8 *)
+Definition lu_sat (gain offset : f32) (inverse : bool) (e : f32) (o : option f32) : bool :=
+  match o with
+  | None => true
+  | Some v =>
+      let value := if inverse then v else fneg v in
+      implb (ffinite e && fnegative e && fle (fmul e gain) (fadd fi16min offset))
+            (fle (fabs (fsub value fi16min)) f2m8)
+      && implb (ffinite e && fpos e && fle (fsub fi16max offset) (fmul e gain))
+               (fle (fabs (fsub value fi16max)) f2m8)
+  end.
 Definition lu_mono (inverse : bool) (x y : f32 * option f32) : bool :=
   match snd x, snd y with
   | Some vx, Some vy =>
@@ -135,7 +149,7 @@ Definition lu_mono (inverse : bool) (x y : f32 * option f32) : bool :=
   end.
 Definition lu_spec (gain offset : f32) (inverse : bool) (pts : list (f32 * option f32)) : bool :=
   implb (profile_domain gain offset)
-        (forallb (fun p => lu_point inverse (fst p) (snd p)) pts && all_pairs (lu_mono inverse) pts).
+        (forallb (fun p => lu_point inverse (fst p) (snd p) && lu_sat gain offset inverse (fst p) (snd p)) pts && all_pairs (lu_mono inverse) pts).
 
 (* linear_motion: outcome per call: None = panic, Some None = no value, Some (Some v) *)
 Definition lm_point (lb : f32) (inverse : bool) (d : f32) (o : option (option Z)) : bool :=
